@@ -133,6 +133,39 @@ def families(env):
         "times-div": term_fam(rl, lambda a, b: mgr.Minus(mgr.Times(a, mgr.Real(3)), mgr.Div(b, mgr.Real(2))),
                               lambda t, i: mgr.Plus(t, oner), lambda t: mgr.LE(t, rl[1])),
     }
+    # read-over-write at constant indexes (the shape index-aware array rules look at)
+    def select_const_store(n, pattern):
+        a = al[0]
+        if pattern == "chain":
+            for i in range(n):
+                a = mgr.Store(a, mgr.Int(i), il[i % 5])
+            return mgr.Equals(mgr.Plus(mgr.Select(a, mgr.Int(-1)), mgr.Select(a, mgr.Int(n - 1))), il[1])
+        prev = a
+        for i in range(n):
+            nxt = mgr.Store(a, mgr.Int(i), mgr.Plus(mgr.Select(a, mgr.Int(i + 1)), mgr.Select(prev, mgr.Int(-1))))
+            prev, a = (a, nxt) if pattern == "fib" else (nxt, nxt)
+        return mgr.Equals(mgr.Select(a, mgr.Int(-1)), il[1])
+    F["select-const-store"] = select_const_store
+    # uninterpreted functions applied to shared arguments
+    fI = mgr.Symbol("fII", tm.FunctionType(I, [I, I]))
+    F["uf-apply"] = term_fam(il, lambda a, b: mgr.Function(fI, [a, b]), lambda t, i: mgr.Plus(t, one),
+                             lambda t: mgr.Equals(t, il[1]))
+    # strings
+    S = pt.STRING
+    sl = leaves(env, S)
+    F["str-concat-replace"] = term_fam(sl, lambda a, b: mgr.StrConcat(mgr.StrReplace(a, sl[2], sl[3]), b),
+                                       lambda t, i: mgr.StrSubstr(t, one, mgr.StrLength(t)),
+                                       lambda t: mgr.Equals(t, sl[1]))
+    # mixed Int/Real with casts and constants on the way (x + 0, x * 1 are folded by the simplifier)
+    #  - an ITE between two levels, so that the folded result never nests Plus directly in Plus)
+    F["toreal-consts"] = term_fam(il, lambda a, b: mgr.Ite(bl[0], mgr.Times(a, one), mgr.Minus(b, mgr.Int(0))),
+                                  lambda t, i: mgr.Ite(bl[i % 5], mgr.Plus(t, one), mgr.Plus(t, mgr.Int(0))),
+                                  lambda t: mgr.LT(mgr.ToReal(t), rl[1]))
+    # bit-vector rotations / extensions / comparisons to Bool and back
+    F["bv-rot-ext-comp"] = term_fam(vl, lambda a, b: mgr.BVExtract(mgr.BVZExt(mgr.BVRol(a, 3), 8), 4, 11) if False else
+                                    mgr.BVXor(mgr.BVRor(mgr.BVRol(a, 3), 1), mgr.BVExtract(mgr.BVSExt(b, 4), 2, 9)),
+                                    lambda t, i: mgr.Ite(mgr.BVULE(t, vl[2]), t, mgr.BVSub(t, onev)),
+                                    lambda t: mgr.Equals(mgr.BVComp(t, vl[1]), mgr.BV(1, 1)))
     return F
 
 
@@ -289,7 +322,8 @@ def job(items):
 
 FAMS = ["and", "or", "implies", "iff", "not-and", "ite-bool-cond", "ite-bool-then", "ite-bool-else", "plus-minus",
         "times-ite", "ite-int-then", "ite-int-else", "bvadd", "bvxor-neg", "bvmul-lshr", "bv-ite-then", "bv-ite-both", "bv-ite-direct", "bv-ite-tower", "int-ite-tower",
-        "bvextract-concat", "store-select", "times-div"]
+        "bvextract-concat", "store-select", "times-div", "select-const-store", "uf-apply", "str-concat-replace",
+        "toreal-consts", "bv-rot-ext-comp"]
 
 
 def main():
@@ -307,7 +341,8 @@ def main():
             items.append(("share", fam, pattern, n))
         items.append(("share", fam, "chain", 400 if thorough else 200))
     deep_fams = FAMS if thorough else ["and", "implies", "ite-bool-then", "plus-minus", "ite-int-then", "bvadd",
-                                       "bv-ite-then", "bv-ite-direct", "store-select", "bvxor-neg", "iff"]
+                                       "bv-ite-then", "bv-ite-direct", "store-select", "bvxor-neg", "iff",
+                                       "select-const-store", "uf-apply", "str-concat-replace"]
     for fam in deep_fams:
         items.append(("deep", fam, depth))
     jobs = [(job, dict(items=[it])) for it in items]
